@@ -7,13 +7,14 @@ PROPS = ["C08"]
 PACKAGES = ["drv_net"]
 META = {
     "C08": {
-        "engine": "replfetcher",
+        "engine": "replfetcher", "more_engines": ["network"],
         "level": "model_checking",
         "technique": "TLA+ state machine of the replication fetcher; TLC exhaustive (bounded depth) + simulation; TLC behaviours replayed into the real ReplicationFetcher and every recorded step validated by TLC against the clause operators and the model's step relation",
         "text": "Each clause of C08 is a step predicate of ReplFetcher.tla. TLC checks them on every behaviour of the implementation-shaped model up to the depth bound "
                 "(all interleavings of advertisements, completions, early completions, range/fullness updates, per-entry timer expiries) and on random deep behaviours; "
                 "those behaviours plus driver-generated random ones over a larger universe are executed on the real fetcher (limit 20 reached by 18 filler fetches) and "
                 "each real step is judged by the same operators; the model's step relation is the drift predicate. Progress is checked as liveness on the model and as bounded rounds on the code. "
+                "'Leaves the in-flight set when the record arrives' is also judged on 2-3 REAL nodes exchanging real messages in any order (specs/network, drv_netw: clause C08_LeavesInFlight at node level). "
                 "The fullness and range limits are also followed into a REAL node (NodeLink.tla): a node built by build_node has its store filled to the shipped 16384-record capacity through the "
                 "real PutLocalRecord handler, and advertisements delivered through the real Cmd::Replicate handler before/after a farther record was refused and the range was handed over are judged by the node-level clauses.",
         "note": "trusted: TLC; the driver's id mapping (own SHA-256/XOR ranking); deadlines aged per entry through hook H3 instead of waiting 20 s/900 s; HashMap tie order among same-key entries is modelled as nondeterminism",
@@ -143,6 +144,11 @@ def run(prop, tier, replay=None):
         build(PACKAGES)
         node_link(v, w, [replay["nodelink_seed"]], with_model=False)
         return v.finish()
+    if replay and replay.get("area") == "network":
+        from areas.replication import network_stage
+        build(PACKAGES)
+        network_stage(v, w, thorough, replay, prefix="C08_", light=True)
+        return v.finish()
     scn_path = os.path.join(w, "scenarios.ndjson")
     if replay:
         write_ndjson(scn_path, [replay["scenario"]])
@@ -209,6 +215,10 @@ def run(prop, tier, replay=None):
     v.cov["rounds_runs"] = sum(1 for e in events if e["ev"] == "RoundsDone")
     if not replay:
         node_link(v, w, [seed() * 100 + i for i in range(6 if thorough else 2)])
+        # the fetcher inside REAL nodes exchanging real messages (specs/network, drv_netw): "every fetch leaves the in-flight
+        # set when the record arrives" judged where arrival means the holder's answer being handed to the requesting node
+        from areas.replication import network_stage
+        network_stage(v, w, thorough, None, prefix="C08_", light=True)
     v.cov["exhaustive"] = False
     v.assumptions = ["advertisement lists are sets (no duplicate (key,type) inside one list)",
                      "deadlines are aged entry-wise through the hook; real 20 s / 900 s timers are not awaited",
